@@ -32,8 +32,8 @@ Orc(s, rel, aft)  == IF Cut(s, rel, aft)
                        ELSE [verdict |-> "eof", len |-> OutUpTo(s, Len(s)), end |-> TotalBytes(s), dead |-> FALSE]
 
 \* what the harness knows when the Reader is created
-BeginOf(s, rel, aft) ==
-  [ev |-> "Begin", kind |-> "flate", ctor |-> "new", exact |-> TRUE,   \* the caller hands over an io.ByteReader (C05 applies); Direct says whether the Reader peeks it directly
+BeginAs(s, rel, aft, ctor) ==
+  [ev |-> "Begin", kind |-> "flate", ctor |-> ctor, exact |-> TRUE,   \* the caller hands over an io.ByteReader (C05 applies); Direct says whether the Reader peeks it directly
    sLen |-> IF aft = "eof" THEN rel ELSE SrcLen(s),
    released |-> rel, after |-> aft,
    decAt |-> IF rel \in SyncEnds(s) /\ aft # "eof" THEN DecAt(s, rel) ELSE -1,
@@ -42,7 +42,10 @@ BeginOf(s, rel, aft) ==
    member |-> FALSE, hdrCheck |-> FALSE, group |-> "", groupClause |-> "NONE.group",
    wantLen |-> -1, wantDigest |-> "", panic |-> ""]
 
-ReadEv(k, n, e) == [ev |-> "Read", k |-> k, n |-> n, err |-> e, errd |-> "", ok |-> TRUE, cnt |-> 1, panic |-> "", dead |-> FALSE]
+\* bytes still deliverable from an abandoned stream are not bytes of the current one
+BeginOf(s, rel, aft) == BeginAs(s, rel, aft, "new")
+
+ReadEv(k, n, e) == [ev |-> "Read", k |-> k, n |-> n, err |-> e, errd |-> "", ok |-> (stale = 0), cnt |-> 1, panic |-> "", dead |-> FALSE]
 
 RInit ==
   /\ Init
@@ -81,11 +84,18 @@ MonRead(k) ==
             /\ ended' = TRUE
        ELSE UNCHANGED <<mvars, mviol, ended>>
 
+\* Reset(src): for the contract a new segment begins (C13: the same contract as for a new Reader)
+MonReset ==
+  /\ ResetMech
+  /\ RC!Begin(BeginAs(S', released', after', "reset"))
+  /\ ended' = FALSE /\ UNCHANGED mviol
+
 Silent(A) == A /\ UNCHANGED <<mvars, mviol, ended>>
 
 RNext ==
   \/ \E k \in ReadSizes : MonRead(k)
   \/ MonPeekFill
+  \/ MonReset
   \/ Silent(PeekDone) \/ Silent(Decode) \/ Silent(Finish)
 
 RSpec == RInit /\ [][RNext]_<<vars, mvars, ended, mviol>>
